@@ -109,6 +109,9 @@ def twin_check(progA, progB, case, names, steps, init=None, contents=None, optim
         return {"discard": "rejected" if ra.status == "rejected" else "crashed", "message": ra.message}
     if ra.accepted != rb.accepted:
         bad = rb if ra.accepted else ra
+        if "[layout_planning]" in (bad.message or ""):
+            # the placement search gave up inside its (harness-owned) time budget: inconclusive, not a verdict on the program
+            return {"discard": "layout-not-found", "message": bad.message[:200]}
         return {"one_sided": True, "failures": [{"sig": "one-sided-" + bad.status, "detail": {"message": bad.message[:300], "which": "B" if ra.accepted else "A"}}],
                 "sample": sample}
     try:
@@ -162,6 +165,8 @@ def agnostic_twin(progA, progB, case, steps, init, optimize=True, skipA=(), skip
         return {"discard": "rejected" if ra.status == "rejected" else "crashed", "message": ra.message}
     if ra.accepted != rb.accepted:
         bad = rb if ra.accepted else ra
+        if "[layout_planning]" in (bad.message or ""):
+            return {"discard": "layout-not-found", "message": bad.message[:200]}
         return {"failures": [{"sig": "one-sided-" + bad.status, "detail": {"message": bad.message[:300], "which": "B" if ra.accepted else "A"}}],
                 "sample": sample}
     fails = []
